@@ -357,7 +357,7 @@ fn encode_prefix(value: u8, sequence: u64) -> u8 {
 
 fn sequence_bytes_required(sequence: u64) -> usize {
     let mut mask: u64 = 0xFF00_0000_0000_0000;
-    for i in 0..8 {
+    for i in 0..7 {
         if (sequence & mask) != 0x00 {
             return 8 - i;
         }
@@ -365,7 +365,7 @@ fn sequence_bytes_required(sequence: u64) -> usize {
         mask >>= 8;
     }
 
-    0
+    1
 }
 
 fn write_sequence(out: &mut impl io::Write, seq: u64) -> Result<usize, io::Error> {
